@@ -1690,6 +1690,7 @@ func plans() []plan {
 		}
 	}
 	ps = append(ps, slicePlans()...)
+	ps = append(ps, cancelStormPlans()...)
 	// look: a context that ends itself on its k-th look, as an initial member in every position and as an Add argument
 	lookL := mon.Pick(2, 3)
 	var look12, look3 []string
@@ -1876,6 +1877,7 @@ func TestCheck(t *testing.T) {
 		"(ext, enumerated) pools of 0..%d initial contexts of kind {live, ended, Background, custom nil-Done type, deadline} x every sequence of 0..%d operations%s over the classic alphabet plus {Add never-ending ctx (Background / WithValue / WithoutCancel(cancelled parent) / custom, flavour = handle number mod 4), Add deadline ctx, Add child of the lowest/highest cancellable member, Add again the context of the lowest/highest live member, Add the pool itself, Add a child of the pool, let 15ms of virtual time pass}; (exthook) the same alphabet, 0..%d initial contexts x 0..%d operations x parked at the first hit of each hook point with 1 or 2 operations placed; "+
 		"(burst) %d seeded sequences of 4..14 operations issued back to back with no quiescence; (randhook) %d seeded lock-step sequences of 6..16 operations on up to 4 initial contexts with a seeded park (hit 1..5, 1..3 placed operations); (racing) %d seeded histories of 2..6 phases whose 1..5 operations are released together from separate goroutines, biased to Add racing the cancellation of the last live member; the seeded modes use the extended alphabet and all initial kinds (also the same context passed twice). "+
 		"(look, enumerated) initial lists of 1..3 contexts over {live, ended, a context that ends itself on its 1st/2nd/3rd/4th Err()/Done() look} with at least one such context, in every position, x every sequence of 0..2 (thorough 0..3; one less for 3 initial contexts) operations over the classic alphabet plus Add of such a context (k=1..4); (storm, seeded) 1..4 members (one case in 40: 2000 members), some of them with slow Err()/Done(), are cancelled by 1..3 other goroutines released on a barrier together with the call of NewPool, on 4 Ps, then 0..3 seeded operations; a context that had ended by the harness's log when NewPool returned may or may not have been taken (not protected, only the upper bound of Size counts it), one still live then was live all along; racing phases also end the argument of an Add from another goroutine while that Add runs. "+
+		"(cancelstorm; cancelstorm_test.go; real goroutines, no bubble, run by the -race build and by a plain build) per case a few hundred fresh pools with one live member: 2..6 goroutines loop Add(live ctx), 0..2 readers loop Size()/Done(), after a seeded number of yields one goroutine calls Cancel (in a third of the cases a second Cancel concurrently); after every call has returned Size() must be 0, Done() closed, a further Cancel must not panic and a further Add must leave Size() at 0; a reader must never see Done() before Cancel was called nor a non-zero Size() after Cancel returned. "+
 		"(slice, enumerated; slice_test.go) the initial contexts are handed over as a caller-owned slice with spare capacity, NewPool(s...): initial slices of 0..3 live/ended contexts (ended ones in front too) x spare capacity 0..2 (thorough 0,1,2,4) x every sequence of 0..3 (thorough 0..4) operations over {cancel(h), Add live/ended to pool 1 or 2, build a second pool from the same slice, the caller overwrites its first/last element, reverses its slice, appends to it, Cancel pool 1 or 2}, quiescent between operations; each pool is judged against its own membership (Done() closed iff it was cancelled or all ITS members ended; Size() = its member count) and the caller's slice must hold, over its whole capacity, exactly what the caller put there after every NewPool/Add; (randslice) seeded sequences of 4..10 such operations on slices of 0..4 contexts (also Background) with spare capacity 0..4. "+
 		"Tuples are enumerated without repetition, so distinct = evaluated for the enumerated modes; seeded cases are distinct by their operation list. Non-trivial = the pool was observed live at a quiescent point (it had a live member) or operations were placed at a hook; a hook case whose hook is not reached before the tail is counted trivial.",
 		sp.seqN, sp.seqL, also, sp.hookN, sp.hookL, sp.hookK, sp.extN, sp.extL, alsoExt, sp.exthookN, sp.exthookL, sp.nBurst, sp.nRandHook, sp.nRacin))
@@ -1888,6 +1890,7 @@ func TestCheck(t *testing.T) {
 		"add.protected.kind_B", "add.protected.kind_V", "add.protected.kind_W", "add.protected.kind_U", "add.protected.kind_D", "add.protected.kind_C", "add.protected.kind_=",
 		"ctxkind.P", "ctxkind.Q", "deadline.expired_in_virtual_time", "never.pool_live_on_never_ending_member_only", "tail.pool_live_until_cancel", "tail.pool_done_before_cancel", "tail.hour_passed_with_pool_live",
 		"look.fired_during_newpool", "look.fired_during_add", "init.member_ended_during_newpool", "storm.big", "racing.add_races_end_of_its_argument",
+		"cancelstorm.pools.main", "cancelstorm.pools.plain", "cancelstorm.adds_returned_after_cancel_was_called", "cancelstorm.cases_with_concurrent_second_cancel", "cancelstorm.cases_with_readers", "cancelstorm.done_after_cancel",
 		"slice.unchanged_checks", "slice.second_pool_from_same_slice", "slice.caller_overwrite", "slice.caller_reverse", "slice.caller_append_into_spare_capacity", "slice.ended_in_front_of_live", "slice.add_while_slice_has_spare_capacity", "slice.pool_checks",
 		"size.checked", "size.zero_after_cancel", "quiescent.checks", "quiescent.live", "racing.phases", "watcher.exited_at_end",
 	})
@@ -1901,8 +1904,17 @@ func TestCheck(t *testing.T) {
 		rec.Note("exhaustive", false)
 		rec.Note("debug_modes_only", only)
 	}
+	if only == "" {
+		rec.Planned(len(ps))
+	}
 	for idx, pl := range ps {
 		if !mon.Mine(idx) || (only != "" && !strings.Contains(","+only+",", ","+pl.mode+",")) {
+			continue
+		}
+		if buildName != "main" && pl.mode != "cancelstorm" {
+			// the plain (no -race) build exists for the cancel storm only; the case is journalled so
+			// that the driver's begun-vs-planned comparison stays meaningful for both builds
+			rec.Begin(idx, pl.mode+": not run in the "+buildName+" build")
 			continue
 		}
 		runPlan(t, idx, pl)
@@ -1966,6 +1978,9 @@ func runPlan(t *testing.T, idx int, pl plan) {
 	switch pl.mode {
 	case "slice", "randslice":
 		runSlicePlan(t, idx, pl)
+		return
+	case "cancelstorm":
+		runCancelStorm(t, idx)
 		return
 	case "burst", "racing", "storm":
 		setProcs(4)
